@@ -45,6 +45,82 @@ func shortType(t types.Type) string {
 	return s
 }
 
+// negText renders the negation of a boolean value in a normal form: double negations cancel and a
+// negated comparison is the opposite comparison, so that `if c {A} else {B}` and `if !c {B} else {A}`
+// render alike.
+func negText(v ssa.Value, d int, seen map[ssa.Value]bool) string {
+	switch x := v.(type) {
+	case *ssa.UnOp:
+		if x.Op.String() == "!" {
+			return argTextD(x.X, d, seen)
+		}
+	case *ssa.BinOp:
+		flip := map[string]string{"==": "!=", "!=": "==", "<": ">=", ">=": "<", ">": "<=", "<=": ">"}
+		if op, ok := flip[x.Op.String()]; ok {
+			return "(" + argTextD(x.X, d+1, seen) + " " + op + " " + argTextD(x.Y, d+1, seen) + ")"
+		}
+	}
+	return "!" + argTextD(v, d+1, seen)
+}
+
+// CondText renders a branch condition under the polarity of the edge taken.
+func CondText(v ssa.Value, branch bool) string {
+	if branch {
+		return argText(v)
+	}
+	return negText(v, 0, map[ssa.Value]bool{})
+}
+
+// indexText renders a constant or parameter index; loop indices are left out.
+func indexText(v ssa.Value) string {
+	switch x := v.(type) {
+	case *ssa.Const:
+		return core.Key(x)
+	case *ssa.Parameter:
+		return core.ParamName(x)
+	}
+	return ""
+}
+
+// structLiteral renders `&T{f: v, …}` for an Alloc that is only written field by field in its own block
+// (a composite literal), else "".
+func structLiteral(x *ssa.Alloc, d int, seen map[ssa.Value]bool) string {
+	pt, ok := x.Type().Underlying().(*types.Pointer)
+	if !ok {
+		return ""
+	}
+	st, ok := pt.Elem().Underlying().(*types.Struct)
+	if !ok || x.Parent() == nil {
+		return ""
+	}
+	vals := map[string]string{}
+	for _, b := range x.Parent().Blocks {
+		for _, in := range b.Instrs {
+			s, ok := in.(*ssa.Store)
+			if !ok {
+				continue
+			}
+			fa, ok := s.Addr.(*ssa.FieldAddr)
+			if !ok || fa.X != ssa.Value(x) {
+				continue
+			}
+			name := st.Field(fa.Field).Name()
+			if _, dup := vals[name]; dup {
+				return "" // assigned more than once: a variable, not a literal
+			}
+			vals[name] = argTextD(s.Val, d+2, seen)
+		}
+	}
+	if len(vals) == 0 {
+		return ""
+	}
+	var parts []string
+	for _, k := range sortedKeys(vals) {
+		parts = append(parts, k+": "+vals[k])
+	}
+	return "&" + shortType(pt.Elem()) + "{" + strings.Join(parts, ", ") + "}"
+}
+
 func argTextD(v ssa.Value, d int, seen map[ssa.Value]bool) string {
 	if v == nil {
 		return "<nil>"
@@ -69,6 +145,9 @@ func argTextD(v ssa.Value, d int, seen map[ssa.Value]bool) string {
 		if x.Op.String() == "*" {
 			return argTextD(x.X, d, seen)
 		}
+		if x.Op.String() == "!" {
+			return negText(x.X, d, seen)
+		}
 		return x.Op.String() + argTextD(x.X, d+1, seen)
 	case *ssa.FieldAddr:
 		_, f := core.FieldOf(x)
@@ -80,15 +159,9 @@ func argTextD(v ssa.Value, d int, seen map[ssa.Value]bool) string {
 		}
 		return argTextD(x.X, d, seen) + ".field"
 	case *ssa.IndexAddr:
-		if c, ok := x.Index.(*ssa.Const); ok {
-			return argTextD(x.X, d, seen) + "[" + core.Key(c) + "]"
-		}
-		return argTextD(x.X, d, seen) + "[]"
+		return argTextD(x.X, d, seen) + "[" + indexText(x.Index) + "]"
 	case *ssa.Index:
-		if c, ok := x.Index.(*ssa.Const); ok {
-			return argTextD(x.X, d, seen) + "[" + core.Key(c) + "]"
-		}
-		return argTextD(x.X, d, seen) + "[]"
+		return argTextD(x.X, d, seen) + "[" + indexText(x.Index) + "]"
 	case *ssa.Lookup:
 		return argTextD(x.X, d, seen) + "[" + argTextD(x.Index, d+1, seen) + "]"
 	case *ssa.Extract:
@@ -129,6 +202,11 @@ func argTextD(v ssa.Value, d int, seen map[ssa.Value]bool) string {
 	case *ssa.TypeAssert:
 		return argTextD(x.X, d, seen) + ".(" + shortType(x.AssertedType) + ")"
 	case *ssa.Alloc:
+		if d <= 1 {
+			if lit := structLiteral(x, d, seen); lit != "" {
+				return lit
+			}
+		}
 		return "new(" + shortType(x.Type().(*types.Pointer).Elem()) + ")"
 	case *ssa.MakeMap:
 		return "make(" + shortType(x.Type()) + ")"
@@ -210,8 +288,15 @@ func WiringAll(env *core.Env) map[string][]string {
 			continue
 		}
 		if rows := WiringRows(fn, nil); len(rows) > 0 {
-			out[core.FuncName(fn)] = rows
+			root := fn
+			for root.Parent() != nil {
+				root = root.Parent()
+			}
+			out[core.FuncName(root)] = append(out[core.FuncName(root)], rows...)
 		}
+	}
+	for k := range out {
+		sort.Strings(out[k])
 	}
 	return out
 }
